@@ -56,6 +56,7 @@ def run(tier):
         rep = replay(r)
         absorb_replay(chk, rep, "deep exact behaviour")
     trace_check(chk, kinds, 1500 if tier == "quick" else 20000, "C03 trace validation", seed_off=3)
+    trace_check(chk, NESTED_THOROUGH, 1500 if tier == "quick" else 20000, "trace validation (nested types)", seed_off=7)
     return chk.finish(rule="programs: expression DAGs with sharing/constants over 42 operations drawn by TLC (Programs.tla), "
                            "evaluated by the real crate on every concrete type (f32/f64, static/dynamic, nested) and by the "
                            "reference interpreter that applies only TLC-exported polynomials while propagating a first-order "
